@@ -56,10 +56,60 @@ Lemma derive_job_kind_spec d h :
   derive_job_kind_gen d h = if h then (if d then JK_try_skip else JK_validate) else JK_execute.
 Proof. destruct d, h; reflexivity. Qed.
 
-Lemma validate_spec ie :
-  validate_gen true ie =
-  if ie then (false, true, SS_PENDING, validate_unchanged_deferred) else (true, false, 0, false).
+Lemma validate_spec ie u :
+  validate_gen true ie u =
+  if ie then (false, true, SS_PENDING, validate_unchanged_deferred_gen u) else (true, false, 0, false).
 Proof. destruct ie; reflexivity. Qed.
+
+(* ---- Step.has_unusable_dynamic_input versus the dynamic_inputs_ready test of _derive_job ---- *)
+Lemma has_unusable_dyn_crow w st df dc : has_unusable_dyn (set_crow w st df dc) = has_unusable_dyn w.
+Proof. reflexivity. Qed.
+
+Lemma static_input_never_not_ready st det :
+  dj_is_not_ready (derive_job_input_gen st det false) = false.
+Proof.
+  unfold derive_job_input_gen.
+  destruct (st =? 18); [reflexivity|]. destruct det; cbn [negb andb];
+    [reflexivity|destruct ((st =? 16) || (st =? 14)); reflexivity].
+Qed.
+
+Lemma dynamic_input_not_ready_iff_unusable st det :
+  dj_is_error (derive_job_input_gen st det true) = false ->
+  dj_is_not_ready (derive_job_input_gen st det true) = unusable_dyn_input_gen st det.
+Proof.
+  unfold derive_job_input_gen, unusable_dyn_input_gen.
+  destruct (st =? 18); [discriminate|].
+  destruct det; cbn [negb andb orb]; [reflexivity|].
+  destruct (st =? 16), (st =? 14); cbn [orb negb]; try reflexivity.
+  destruct ((st =? 15) || (st =? 17)); [discriminate|reflexivity].
+Qed.
+
+Lemma existsb_false_forall {A} (p : A -> bool) l : existsb p l = false -> forall a, In a l -> p a = false.
+Proof.
+  intros H a Ha. destruct (p a) eqn:E; [|reflexivity].
+  assert (X : existsb p l = true) by (apply existsb_exists; eauto). rewrite X in H. discriminate.
+Qed.
+
+Lemma existsb_ext_in {A} (p q : A -> bool) l : (forall a, In a l -> p a = q a) -> existsb p l = existsb q l.
+Proof.
+  induction l as [|a l IH]; intros H; [reflexivity|]. cbn [existsb].
+  rewrite (H a (or_introl eq_refl)), IH; [reflexivity|]. intros b Hb. apply H. right. exact Hb.
+Qed.
+
+(* has_unusable_dynamic_input() is the exact opposite of dynamic_inputs_ready (no sanity error) *)
+Lemma unusable_iff_not_ready w :
+  derive_error w = false -> has_unusable_dyn w = negb (dyn_ready w).
+Proof.
+  intros He. unfold derive_error in He. apply orb_false_iff in He. destruct He as [_ Hd].
+  unfold dyn_ready, has_unusable_dyn. rewrite negb_involutive.
+  assert (H1 : existsb (fun f => dj_is_not_ready (derive_input w false f)) (c_init w) = false).
+  { destruct (existsb _ (c_init w)) eqn:E; [|reflexivity].
+    apply existsb_exists in E. destruct E as (f & _ & Hf). unfold derive_input in Hf.
+    rewrite static_input_never_not_ready in Hf. discriminate. }
+  rewrite H1. cbn [orb]. apply existsb_ext_in. intros f Hf.
+  unfold derive_input. symmetry. apply dynamic_input_not_ready_iff_unusable.
+  exact (existsb_false_forall _ _ Hd f Hf).
+Qed.
 
 Lemma try_skip_phase1_spec ie :
   try_skip_phase1_gen true ie = if ie then (false, false) else (true, true).
@@ -197,9 +247,9 @@ Qed.
    instantiated below with the generated validate_gen (d = validate_unchanged_deferred) and with
    validate_prefix, the code before fix d760e3e (d = false). *)
 Section ValidateDecision.
-Variable vg : bool -> bool -> bool * bool * N * bool.
-Variable d : bool.
-Hypothesis Hvg : forall ie, vg true ie = if ie then (false, true, SS_PENDING, d) else (true, false, 0, false).
+Variable vg : bool -> bool -> bool -> bool * bool * N * bool.
+Variable d : bool -> bool.
+Hypothesis Hvg : forall ie u, vg true ie u = if ie then (false, true, SS_PENDING, d u) else (true, false, 0, false).
 
 (* The dispatch decision itself. *)
 Lemma g_do_xtry_dispatched x t cancel x' k s :
@@ -242,7 +292,7 @@ Lemma g_do_xtry_with_hash x t cancel sh :
     | NR_ok inp =>
         if inp_equal sh (x_envc x) inp then
           if dyn_ready w then (set_xchk (set_xb x w1) (Some (mkChk sh (x_envc x) inp (snapshot w))), XRTry 2 false)
-          else (set_xb x (set_crow w1 SS_PENDING d (c_dc w)), XRTry 3 false)
+          else (set_xb x (set_crow w1 SS_PENDING (d (has_unusable_dyn w)) (c_dc w)), XRTry 3 false)
         else (apply_reset x w1, XRTry kn false)
     end.
 Proof.
@@ -442,8 +492,8 @@ Theorem g_checking_outcomes x t x' k s sh :
      x_hash x' = Some sh /\
      (k = 2 -> c_state (xb x') = SS_CHECKING /\
                x_chk x' = Some (mkChk sh (x_envc x) (canon (snapshot (xb x))) (snapshot (xb x)))) /\
-     (k = 3 -> c_state (xb x') = SS_PENDING /\ c_deferred (xb x') = d /\
-               x_chk x' = x_chk x /\ (d = false -> x' = x))).
+     (k = 3 -> c_state (xb x') = SS_PENDING /\ c_deferred (xb x') = d (has_unusable_dyn (xb x)) /\
+               x_chk x' = x_chk x /\ (d (has_unusable_dyn (xb x)) = false -> x' = x))).
 Proof.
   intros Htry Hk Hh.
   assert (Hk0 : k <> 0) by (destruct Hk; subst; discriminate).
@@ -488,7 +538,7 @@ Theorem g_validate_never_succeeds_never_runs x t cancel x' s :
   do_xtry_gen vg x t cancel = (x', XRTry 3 s) ->
   s = false /\ c_run (xb x') = None /\ x_chk x' = None /\
   (c_state (xb x') = SS_PENDING \/ c_state (xb x') = SS_FAILED) /\
-  (has_hash x' = true -> d = false -> x' = x).
+  (has_hash x' = true -> d (has_unusable_dyn (xb x)) = false -> x' = x).
 Proof.
   intros Htry.
   assert (Hk0 : (3 : N) <> 0) by discriminate.
@@ -520,13 +570,13 @@ Qed.
    i.e. exactly as it was dispatched; unless another actor changes something, every further dispatch
    derives the same job again with the same result. *)
 Theorem g_validate_unchanged_redispatches x t x' s :
-  d = false ->
+  (forall u, d u = false) ->
   do_xtry_gen vg x t false = (x', XRTry 3 s) -> has_hash x' = true ->
   x' = x /\ forall t', do_xtry_gen vg x t' false = (x, XRTry 3 false).
 Proof.
   intros Hv Htry Hh.
   destruct (g_validate_never_succeeds_never_runs x t false x' s Htry) as [Hs [_ [_ [_ Hx]]]].
-  specialize (Hx Hh Hv). subst x' s. split; [reflexivity|].
+  specialize (Hx Hh (Hv _)). subst x' s. split; [reflexivity|].
   assert (Hany : forall t', do_xtry_gen vg x t' false = (x, XRTry 3 false)).
   { intros t'.
     assert (Hk0 : (3 : N) <> 0) by discriminate.
@@ -578,7 +628,7 @@ Qed.
    again, whatever other actors do, until a transaction changes the row of c itself (which is what
    Workflow.mark_step_pending does when an input of c changes: it clears `deferred`). *)
 Theorem g_validate_unchanged_waits x t x' s :
-  d = true ->
+  d true = true ->
   do_xtry_gen vg x t false = (x', XRTry 3 s) -> has_hash x' = true ->
   c_state (xb x') = SS_PENDING /\ c_deferred (xb x') = true /\ x_hash x' = x_hash x /\
   forall mid, forallb not_crow mid = true ->
@@ -598,7 +648,7 @@ Proof.
       destruct (Hre eq_refl eq_refl) as [_ [_ [_ [Hn _]]]]. unfold has_hash in Hh. rewrite Hn in Hh. discriminate Hh. }
   destruct Hbranch as [Hsc Hie].
   destruct (Hsame Hsc Hie) as [Hhash [_ H3']]. destruct (H3' eq_refl) as [Hp [Hdf _]].
-  rewrite Hd in Hdf.
+  rewrite (unusable_iff_not_ready _ He), Hr in Hdf. cbn [negb] in Hdf. rewrite Hd in Hdf.
   split; [exact Hp|]. split; [exact Hdf|]. split; [rewrite Hhash; symmetry; exact Hsh|].
   intros mid Hmid t' c.
   destruct (not_crow_run mid x' Hmid Hrun) as [_ [Hdf' _]].
@@ -631,7 +681,7 @@ Lemma do_xtry_with_hash x t cancel sh :
     | NR_ok inp =>
         if inp_equal sh (x_envc x) inp then
           if dyn_ready w then (set_xchk (set_xb x w1) (Some (mkChk sh (x_envc x) inp (snapshot w))), XRTry 2 false)
-          else (set_xb x (set_crow w1 SS_PENDING validate_unchanged_deferred (c_dc w)), XRTry 3 false)
+          else (set_xb x (set_crow w1 SS_PENDING (validate_unchanged_deferred_gen (has_unusable_dyn w)) (c_dc w)), XRTry 3 false)
         else (apply_reset x w1, XRTry kn false)
     end.
 Proof. exact (g_do_xtry_with_hash validate_gen _ validate_spec x t cancel sh). Qed.
@@ -669,22 +719,45 @@ Theorem checking_outcomes x t x' k s sh :
      x_hash x' = Some sh /\
      (k = 2 -> c_state (xb x') = SS_CHECKING /\
                x_chk x' = Some (mkChk sh (x_envc x) (canon (snapshot (xb x))) (snapshot (xb x)))) /\
-     (k = 3 -> c_state (xb x') = SS_PENDING /\ c_deferred (xb x') = validate_unchanged_deferred /\
-               x_chk x' = x_chk x /\ (validate_unchanged_deferred = false -> x' = x))).
+     (k = 3 -> c_state (xb x') = SS_PENDING /\
+               c_deferred (xb x') = validate_unchanged_deferred_gen (has_unusable_dyn (xb x)) /\
+               x_chk x' = x_chk x /\
+               (validate_unchanged_deferred_gen (has_unusable_dyn (xb x)) = false -> x' = x))).
 Proof. exact (g_checking_outcomes validate_gen _ validate_spec x t x' k s sh). Qed.
 
 Theorem validate_never_succeeds_never_runs x t cancel x' s :
   do_xtry x t cancel = (x', XRTry 3 s) ->
   s = false /\ c_run (xb x') = None /\ x_chk x' = None /\
   (c_state (xb x') = SS_PENDING \/ c_state (xb x') = SS_FAILED) /\
-  (has_hash x' = true -> validate_unchanged_deferred = false -> x' = x).
+  (has_hash x' = true -> validate_unchanged_deferred_gen (has_unusable_dyn (xb x)) = false -> x' = x).
 Proof. exact (g_validate_never_succeeds_never_runs validate_gen _ validate_spec x t cancel x' s). Qed.
 
 (* The source sets `deferred` in the "digest unchanged" branch (fix d760e3e): this is the generated
    fact the positive theorem needs; it breaks (together with the regression replay of the oracle) if
    the flag disappears again. *)
-Lemma validate_unchanged_is_deferred : validate_unchanged_deferred = true.
+Lemma validate_unchanged_is_deferred : validate_unchanged_deferred_gen true = true.
 Proof. reflexivity. Qed.
+
+(* The other half of the termination argument (D36) since 84081f2: the flag is decided in the
+   transaction that records the outcome, in whatever world y that is.  If it comes out False, no
+   dynamic input of c is unusable in y, and then -- for any row of c, at any clock reading, cancelled
+   or not -- the next dispatch of c is NOT a validation job: it is a try_skip_job (a check) or none. *)
+Theorem validate_outcome_redispatched_only_as_check y st df dc t c x' k s :
+  validate_unchanged_deferred_gen (has_unusable_dyn (xb y)) = false ->
+  do_xtry (set_xb y (set_crow (xb y) st df dc)) t c = (x', XRTry k s) ->
+  has_unusable_dyn (xb y) = false /\ k <> 3.
+Proof.
+  intros Hflag Htry.
+  assert (Hu : has_unusable_dyn (xb y) = false).
+  { destruct (has_unusable_dyn (xb y)); [|reflexivity].
+    rewrite validate_unchanged_is_deferred in Hflag. discriminate. }
+  split; [exact Hu|]. intros ->.
+  assert (Hk0 : (3 : N) <> 0) by discriminate.
+  destruct (do_xtry_dispatched _ _ _ _ _ _ Htry Hk0) as [_ [_ [He Hkind]]].
+  destruct Hkind as [[Hk _]|[[Hk _]|[_ [Hr _]]]]; try discriminate Hk.
+  cbn [xb set_xb] in He, Hr.
+  pose proof (unusable_iff_not_ready _ He) as E. rewrite has_unusable_dyn_crow, Hu, Hr in E. discriminate.
+Qed.
 
 Theorem validate_unchanged_waits x t x' s :
   do_xtry x t false = (x', XRTry 3 s) -> has_hash x' = true ->
@@ -697,8 +770,8 @@ Qed.
 
 (* ---- instance: the code before fix d760e3e (finding D36) ---- *)
 
-Lemma validate_prefix_spec ie :
-  validate_prefix true ie = if ie then (false, true, SS_PENDING, false) else (true, false, 0, false).
+Lemma validate_prefix_spec ie (u : bool) :
+  validate_prefix true ie u = if ie then (false, true, SS_PENDING, false) else (true, false, 0, false).
 Proof. destruct ie; reflexivity. Qed.
 
 (* prefix_validate_unchanged_redispatches: with set_state(PENDING) (not deferred) in the "digest
@@ -709,7 +782,8 @@ Theorem prefix_validate_unchanged_redispatches x t x' s :
   x' = x /\ forall t', do_xtry_gen validate_prefix x t' false = (x, XRTry 3 false).
 Proof.
   intros Htry Hh.
-  exact (g_validate_unchanged_redispatches validate_prefix false validate_prefix_spec x t x' s eq_refl Htry Hh).
+  exact (g_validate_unchanged_redispatches validate_prefix (fun _ => false) validate_prefix_spec x t x' s
+           (fun _ => eq_refl) Htry Hh).
 Qed.
 
 (* skip_outcomes: try_skip_job after the output hashing.  The step becomes SUCCEEDED iff the hash
@@ -926,7 +1000,7 @@ Proof.
       destruct (derive_error (xb x)); [intros H; inversion H; eauto|].
       destruct (derive_job_kind_gen _ _); destruct (x_hash x); destruct c; cbn [negb];
         try (destruct (do_try (xb x) t)); try (destruct (new_run _ _ _));
-        try (destruct (validate_gen _ _) as [[[a1 a2] a3] a4]; destruct a1; [|destruct a2]);
+        try (destruct (validate_gen _ _ _) as [[[a1 a2] a3] a4]; destruct a1; [|destruct a2]);
         try (destruct (try_skip_phase1_gen _ _) as [b1 b2]; destruct b2; [|destruct b1]);
         intros H; inversion H; eauto. }
     destruct Hres as [k [s ->]].
@@ -936,7 +1010,7 @@ Proof.
       destruct (derive_error (xb x)); [intros H; inversion H; subst; cbn in Hstart; contradiction|].
       destruct (derive_job_kind_gen _ _); destruct (x_hash x); destruct c; cbn [negb];
         try (destruct (do_try (xb x) t)); try (destruct (new_run _ _ _));
-        try (destruct (validate_gen _ _) as [[[a1 a2] a3] a4]; destruct a1; [|destruct a2]);
+        try (destruct (validate_gen _ _ _) as [[[a1 a2] a3] a4]; destruct a1; [|destruct a2]);
         try (destruct (try_skip_phase1_gen _ _) as [b1 b2]; destruct b2; [|destruct b1]);
         intros H; inversion H; subst; contradiction. }
     destruct c.
